@@ -14,7 +14,8 @@ RULE = ("Complete enumeration. Compression maps: every n in 1..N_MAX (quick 150 
         "14x20): the position lists of all classes (block,row,col) partition the upper triangle, |class| = W-block, all "
         "positions of a class carry the same and distinct classes different identities in an independently built symbolic "
         "block-Toeplitz matrix (symmetric leading block), and the compressed and (row,col) forms name the same positions in "
-        "the same order. A Hypothesis sub-check adds random finite float matrices. Every enumerated item is non-trivial "
+        "the same order. Because the helpers are memoised, a second sub-check walks the whole (N,W) domain in other query "
+        "orders inside one process (W descending, N and W descending, W outer, seeded shuffles). A Hypothesis sub-check adds random finite float matrices. Every enumerated item is non-trivial "
         "except n=1 / (N,W)=(1,1); distinct by construction (one item per n / per (N,W)).")
 ASSUMPTIONS = ["private helper names are taken from the property's anchors; if one disappears the check exits 2 (machinery), not 1",
                "values: float equality (==), so -0.0/+0.0 and NaN payloads are outside the statement; |x| <= 1e300"]
@@ -162,6 +163,41 @@ def execute_enum(case, t):
             t.mark_nontrivial()
 
 
+def enumerate_orders(tier):
+    """The helpers are memoised, so what an (N,W) query returns could depend on the queries made before it in the same
+    process.  Each case walks the whole stated (N,W) domain (and the compression sizes) in one order."""
+    yield {"kind": "order", "order": "W_descending"}
+    yield {"kind": "order", "order": "N_descending_W_descending"}
+    yield {"kind": "order", "order": "W_outer_descending"}
+    for k in range(6 if tier == "quick" else 48):
+        yield {"kind": "order", "order": f"shuffle-{k}"}
+
+
+def execute_order(case, t):
+    import random
+    _, Nmax, Wmax = LIMITS["quick"]          # the property's stated domain
+    pairs = [(N, W) for N in range(1, Nmax + 1) for W in range(1, Wmax + 1)]
+    o = case["order"]
+    if o == "W_descending":
+        pairs = [(N, W) for N in range(1, Nmax + 1) for W in range(Wmax, 0, -1)]
+    elif o == "N_descending_W_descending":
+        pairs = [(N, W) for N in range(Nmax, 0, -1) for W in range(Wmax, 0, -1)]
+    elif o == "W_outer_descending":
+        pairs = [(N, W) for W in range(Wmax, 0, -1) for N in range(1, Nmax + 1)]
+    else:
+        random.Random(int(o.split("-")[1]) + 77).shuffle(pairs)
+    sizes = sorted({N * W for (N, W) in pairs}, reverse=True)
+    try:
+        for n in sizes[:40]:
+            check_compress(n, t)
+        for (N, W) in pairs:
+            check_classes(N, W, t)
+    except Violation as v:
+        raise Violation(f"{v.message} [queried in the order '{o}', i.e. after other sizes in the same process]", **v.detail)
+    t.cls(f"order_{o.split('-')[0]}")
+    t.mark_nontrivial({"order": o, "pairs": len(pairs)})
+
+
 @st.composite
 def float_matrix_case(draw):
     n = draw(st.integers(1, 40))
@@ -194,6 +230,8 @@ def execute_float(case, t):
 SUBCHECKS = [
     SubCheck(name="enumerate_all_sizes", enumerate=enumerate_cases, execute=execute_enum, exhaustive=True,
              budget={"quick": 1, "thorough": 1}, shards={"quick": 4, "thorough": 16}, modes=["jit"]),
+    SubCheck(name="memoised_helpers_in_other_query_orders", enumerate=enumerate_orders, execute=execute_order, exhaustive=False,
+             budget={"quick": 1, "thorough": 1}, shards={"quick": 3, "thorough": 16}, modes=["jit"]),
     SubCheck(name="random_float_round_trip", strategy=float_matrix_case, execute=execute_float,
              budget={"quick": 400, "thorough": 8000}, shards={"quick": 1, "thorough": 4}, modes=["jit"]),
 ]
